@@ -141,6 +141,10 @@ def act(op, addr=("ip1", 1), auto=False, patch=(), id=0, key="", val=None):
 
 def random_history(rng, n):
     addrs = [("ip%d" % (i // 2 + 1), i % 2 + 1) for i in range(8)]
+    if rng.random() < 0.35:
+        # addresses as a dual-stack socket reports them: the IPv4-mapped IPv6 form next to the plain form of the same host - two
+        # different source addresses as far as the storage's statement goes ("the same incoming address" is the same tuple)
+        addrs = addrs[:4] + [("::ffff:10.9.8.7", 1), ("10.9.8.7", 1), ("::ffff:10.9.8.7", 2), ("::1", 1)]
     strs = ["", "A", "B", "OK4DMR"]
     sut = Sut()
     ev = []
